@@ -45,8 +45,13 @@ class RowFn(object):
 
 
 def rand_series(rng, n):
-    kind = rng.integers(7)
-    if kind == 6:     # crests / troughs whose top samples are one or two ulps apart (later one larger or smaller)
+    kind = rng.integers(8)
+    if kind == 7:     # more than 160 decades of dynamic range INSIDE one series: unit-size samples next to crossings and half cycles at 1e-170 .. 1e-300
+        x = rng.standard_normal(n) * 10.0 ** rng.choice([0.0, -170.0, -200.0, -300.0, -170.0], size=n)
+        if n >= 5 and rng.integers(2):
+            j = int(rng.integers(0, n - 4))
+            x[j:j + 5] = np.array([1.0, -2e-170, -1e-170, -3e-170, 2e-170]) * float(rng.choice([1.0, -1.0, 250.0]))
+    elif kind == 6:     # crests / troughs whose top samples are one or two ulps apart (later one larger or smaller)
         x = np.repeat(rng.standard_normal(max(2, n // 3 + 1)), 3)[:n]
         for j in range(1, len(x)):
             if x[j] == x[j - 1]:
